@@ -61,3 +61,40 @@ func ZZ_C14_ControllerHandlers() {
 	zzAssert(c.ZZLockDepth() == 0, "C14.controller.lock-left-held-after-follow-up")
 	zzReach("C14.controller.done")
 }
+
+// an I/O or a membership-changing request (they take the controller's write lock)
+// arrives while a management request is inside a call to a replica: both are served.
+// sync.RWMutex prefers the waiting writer, so a handler path that read-locks the
+// controller twice would deadlock the volume here.
+func ZZ_C14_ControllerWriterArrives() {
+	rf := zzParam("RF", 3)
+	c := controller.ZZSymbolicController(rf)
+	s := NewServer(c)
+	h := zzHandlers[zzConcretize(zzChoice("handler", len(zzHandlers)))]
+	zzReadMode = 0
+	zzVarID = zzPick("id", "vol", EncodeID(controller.ZZAddr(0)))
+	gate := make(chan struct{})
+	done := make(chan bool, 1)
+	opened := false
+	go func() {
+		<-gate
+		c.ZZWriteLockUnlock()
+		done <- true
+	}()
+	controller.ZZOnReplicaCall(func() {
+		if !opened && c.ZZLockDepth() > 0 {
+			opened = true
+			close(gate)
+			zzYield()
+		}
+	})
+	h.f(s)(&zzRW{}, zzRequest())
+	controller.ZZOnReplicaCall(nil)
+	if !opened {
+		close(gate)
+	}
+	zzSettle()
+	zzAssert(len(done) == 1, "C14.controller.write-locking-request-never-served-after-"+h.name)
+	zzAssert(c.ZZLockDepth() == 0, "C14.controller.lock-left-held-after-"+h.name)
+	zzReach("C14.controller.writer-arrives.done")
+}
